@@ -5,6 +5,7 @@ import (
 	auth "github.com/cosmos/cosmos-sdk/x/auth/types"
 	bankkeeper "github.com/cosmos/cosmos-sdk/x/bank/keeper"
 	banktypes "github.com/cosmos/cosmos-sdk/x/bank/types"
+	gethcommon "github.com/ethereum/go-ethereum/common"
 
 	"github.com/NibiruChain/nibiru/v2/eth"
 	"github.com/NibiruChain/nibiru/v2/x/evm"
@@ -236,6 +237,13 @@ func (bk *NibiruBankKeeper) SyncStateDBWithAccount(
 ) {
 	// If there's no StateDB set, it means we're not in an EthereumTx.
 	if bk.StateDB == nil {
+		return
+	}
+	// Only 20-byte addresses have an EVM counterpart. A longer one (the 32-byte
+	// address of a Wasm contract) would be truncated by NibiruAddrToEthAddr: its
+	// bank balance would be mirrored into, and at Commit minted to, an
+	// unrelated 20-byte account.
+	if len(acc) != gethcommon.AddressLength {
 		return
 	}
 
